@@ -330,6 +330,8 @@ def run(ctx):
             out = r.stdout.decode("utf-8", "replace")
             bad = [b for b in w.get("bad_stdout", []) if b in out]
             ctx.known(f, r.status != 0 or bool(bad), "status %s %s %s" % (r.status, r.stderr.decode("utf-8", "replace")[:160], bad))
+    from vlib import regress
+    regress.wide_layouts(ctx, {"C10"})          # the shape-agnostic search step (DESIGN.md 12.8)
     ctx.cov["rule"] = ("ref-vs-inline: random in-guard schemas with definitions, each also with every $ref replaced by a copy of its target; multi-file: definitions in a sibling / "
                        "sub-directory / YAML / extension-less (--resolve-extension) file, whole-file references through a parent directory, and two files that use the same local "
                        "reference text inside allOf with different targets; both forms run on the same schema-directed documents (valid + single-fault); observables: verdict and "
